@@ -89,6 +89,14 @@ func (e *faultsim) registerNatives(h *Host, bodies []genBody) {
 			return nil, err
 		case 2:
 			return nil, fmt.Errorf("host: %w", err)
+		case 3:
+			// a sloppy host that drops the error of a nested call. For an interrupt that must not matter: the flag stays
+			// set until the OUTERMOST call returns, so the script is interrupted again before its next instruction.
+			var ie0 *goja.InterruptedError
+			if errors.As(err, &ie0) {
+				h.logSwallow++
+				return goja.Undefined(), nil
+			}
 		}
 		// mode 0: re-panic. Only goja's own error types may be panicked with as they are; an arbitrary Go error (e.g.
 		// the one an ExportTo'd function hands back after unwrapping a GoError) must be wrapped, or it is a foreign panic.
@@ -344,6 +352,8 @@ func inflight(s goja.VerifState, nest int) string {
 const canarySrc = `
 function canary() {
   var r = 0;
+  r += (function(){ return typeof new.target === 'undefined' ? 0 : 100000; })();  // first: a stale new.target register would show here
+  r += (function(){ return arguments.length; })() * 1000000;
   (function f(n){ if (n > 0) { try { f(n - 1); } finally { r++; } } })(40);
   L: for (var i = 0; i < 3; i++) { try { try { if (i == 1) continue L; r += P(900001); } finally { r += 2; } } finally { r += 3; } }
   for (const x of gen(900002, 3)) { if (x == 1) break; }
@@ -519,6 +529,9 @@ func (e *faultsim) Run(t *core.Tape, want bool) *core.Result {
 			}
 		}
 		res.Steps += h.totalStep
+		if h.logSwallow > 0 && plan != nil {
+			res.Count("host-swallowed-nested-interrupt", int64(h.logSwallow))
+		}
 		return
 	}
 
